@@ -381,4 +381,12 @@ def _has_raw_arbitrary(clauses):
         return False
 
 
-PROP = C06()
+from srccall import with_src  # noqa: E402
+
+# translated source: Specifier.prereleases / .contains / .filter (with _coerce_version and the operator dispatch of
+# _get_operator) are proved equal to S.Spec.prereleases / contains / filter, the functions the C06 theorems are about
+PROP = with_src(C06(), share=10, functions=["Specifier.prereleases", "Specifier.contains", "Specifier.filter"],
+                module="PkgProofs.Props.Src.SpecContains",
+                theorems=["Src.contains_translated", "Src.Specifier.prereleases_eq_model", "Src._coerce_version_eq_model",
+                          "Src._coerce_version_str", "Src.get_operator_call_eq_model", "Src.Specifier.contains_eq_model",
+                          "Src.Specifier.filter_eq_model"])
